@@ -23,6 +23,7 @@ import (
 	"io"
 	"os"
 	"path/filepath"
+	goruntime "runtime"
 	"sort"
 	"strings"
 
@@ -630,6 +631,27 @@ func main() {
 			}
 			cs, feat := genCase(c.Rng, profile, i%160 == 7) // token-review retries (500 ms each) in a few cases only
 			runCase(c, cs, bucketOf(c, profile, feat), true)
+		}
+		c.SetExtra("goroutines_at_end", goruntime.NumGoroutine())
+		if os.Getenv("C12_GDUMP") != "" {
+			buf := make([]byte, 64<<20)
+			n := goruntime.Stack(buf, true)
+			cnt := map[string]int{}
+			for _, blk := range strings.Split(string(buf[:n]), "\n\n") {
+				ls := strings.Split(blk, "\n")
+				key := ""
+				for _, l := range ls {
+					if strings.HasPrefix(l, "created by ") {
+						key = strings.Split(l, " in goroutine")[0]
+					}
+				}
+				cnt[key]++
+			}
+			for k, v := range cnt {
+				if v > 5 {
+					fmt.Fprintln(os.Stderr, v, k)
+				}
+			}
 		}
 	})
 }
